@@ -2,9 +2,14 @@
 C02 — driver: replays an implementation trace through the model (correspondence) and evaluates the
 history-only specification on the implementation's own observations (monitor).
 
-cfg:  window=<ns> buckets=<n> threshold=<n> t0=<ns> disabled=<0/1> group=<0/1>
+cfg:  window=<ns> buckets=<n> threshold=<n> t0=<ns> disabled=<0/1> group=<0/1> [opts=<letters>]
+      opts: the ShedderOptions passed, in order: w = WithWindow(window), b = WithBuckets(buckets), t = WithCpuThreshold(
+      threshold); capital letters pass a decoy value (window+1000000007, buckets+3, threshold+7) that a later option must
+      override; `-` = no option; absent = wbt.  The shedder is `newShedder enabled (these options) now`.
 ops:  t+ <ns>                                   => now=<ns>
-      allow k=<key> over=<0/1> cpu=<n> p=<id>   => ok | overloaded ; flying=<n> avg=<n/d> mp=<n> rt=<n/d> mf=<n/d>
+      disable                                   => disabled     load.Disable(): shedders created from now on are nop shedders
+      allow k=<key> over=<0/1/d> cpu=<n> p=<id> => ok | overloaded ; flying=<n> avg=<n/d> mp=<n> rt=<n/d> mf=<n/d>
+                                                   (over=d: the DEFAULT systemOverloadChecker runs, verdict = cpu ≥ threshold)
                                                    ot=<ns> dr=<0/1> cpuok=<0/1> nan=<0/1> (p names the promise if admitted)
       pass <p> | fail <p>                       => flying=<n> avg=<n/d> | nopromise (p was never admitted) | nop (disabled)
 `over` is what the scripted systemOverloadChecker returns, `cpu` what stat.CpuUsage() is set to for
@@ -17,7 +22,7 @@ verdict is followed and the call is counted as `factor-nan-unguarded` (finding C
 accepts both forms of overloadFactor until the patch is applied). nan=1 anywhere else is a mismatch.
 -/
 import GoZero.Base.Trace
-import GoZero.C02.Spec
+import GoZero.C02.Site
 namespace GoZero.C02
 
 open GoZero
@@ -35,6 +40,7 @@ def showRat (r : Rat) : String := if r.den = 1 then s!"{r.num}" else s!"{r.num}/
 
 structure Inst where
   key : Nat
+  nop : Bool := false          -- created while load shedding was disabled: the nop shedder
   sh  : Shedder
   h   : Spec.Hist
   wc  : Spec.WinCfg
@@ -48,13 +54,31 @@ structure Prom where
 
 structure DSt where
   now : Nat
+  enabled : Bool := true       -- the package flag `enabled`
   insts : List Inst := []
   proms : List Prom := []
 
-def mkInst (window buckets : Nat) (threshold : Int) (key now : Nat) : Inst :=
-  let sh := Shedder.new window buckets threshold now
-  { key := key, sh := sh, h := { now := now },
-    wc := { size := buckets, interval := window / buckets, t0 := now, scale := sh.windowScale } }
+/-- `NewAdaptiveShedder(opts...)` (directly or through `ShedderGroup.GetShedder`) at `now`. -/
+def mkInst (enabled : Bool) (opts : List Opt) (key now : Nat) : Inst :=
+  let o := applyOpts opts
+  let sh0 := Shedder.new o.window o.buckets o.threshold now
+  let wc : Spec.WinCfg := { size := o.buckets, interval := o.window / o.buckets, t0 := now, scale := sh0.windowScale }
+  match newShedder enabled opts now with
+  | .nop => { key := key, nop := true, sh := sh0, h := { now := now }, wc := wc }
+  | .adaptive sh => { key := key, nop := false, sh := sh, h := { now := now }, wc := wc }
+
+/-- the option list of a section (see the header). -/
+def parseOpts (letters : String) (window buckets : Nat) (threshold : Int) : Option (List Opt) :=
+  letters.toList.foldl (fun acc c => acc.bind fun l =>
+    match c with
+    | 'w' => some (l ++ [.window window])
+    | 'b' => some (l ++ [.buckets buckets])
+    | 't' => some (l ++ [.threshold threshold])
+    | 'W' => some (l ++ [.window (window + 1000000007)])
+    | 'B' => some (l ++ [.buckets (buckets + 3)])
+    | 'T' => some (l ++ [.threshold (threshold + 7)])
+    | '-' => some l
+    | _ => none) (some [])
 
 def setInst (l : List Inst) (i : Inst) : List Inst :=
   if l.any (·.key = i.key) then l.map fun j => if j.key = i.key then i else j else l ++ [i]
@@ -78,12 +102,19 @@ def runSection (r : Report) (s : Section) : Report := Id.run do
   let disabled := kvNat s.cfg "disabled" 0 = 1
   let group := kvNat s.cfg "group" 0 = 1
   let mut r := r
-  if buckets = 0 ∨ window / buckets = 0 ∨ kv? s.cfg "window" = none ∨ kv? s.cfg "buckets" = none then
+  let letters := kvStr s.cfg "opts" "wbt"
+  let some opts := parseOpts letters window buckets threshold | return r.mismatch s.idx 0 "bad-cfg" (joinSp s.cfg)
+  let eo := applyOpts opts
+  if eo.buckets = 0 ∨ eo.window / eo.buckets = 0 ∨ kv? s.cfg "window" = none ∨ kv? s.cfg "buckets" = none then
     return r.mismatch s.idx 0 "bad-cfg" (joinSp s.cfg)
-  let mut st : DSt := { now := t0 }
-  if !group && !disabled then
-    st := { st with insts := [mkInst window buckets threshold 0 t0] }
+  let mut st : DSt := { now := t0, enabled := !disabled }
+  if !group then
+    st := { st with insts := [mkInst st.enabled opts 0 t0] }
   r := r.addCover (if disabled then "section-disabled" else if group then "section-group" else "section-plain")
+  if letters ≠ "wbt" then
+    r := r.addCover (if letters = "-" then "options-none-all-defaults"
+                     else if letters.toList.any Char.isUpper then "options-repeated-last-wins"
+                     else if letters.length < 3 then "options-subset-some-defaults" else "options-reordered")
   for l in s.lines do
     r := { r with ops := r.ops + 1 }
     match l.op with
@@ -95,27 +126,39 @@ def runSection (r : Report) (s : Section) : Report := Id.run do
                         insts := st.insts.map fun i => { i with h := i.h.observe (.advance d) } }
         r := r.addCover "advance"
         if kvNat l.obs "now" 0 ≠ st.now then r := r.mismatch s.idx l.idx s!"now={st.now}" (joinSp l.obs)
+    | ["disable"] =>
+      st := { st with enabled := false }
+      r := r.addCover "disable-mid-section"
+      if joinSp l.obs ≠ "disabled" then r := r.mismatch s.idx l.idx "disabled" (joinSp l.obs)
     | "allow" :: args =>
-      match (kv? args "k").bind String.toNat?, (kv? args "over").bind String.toNat?, (kv? args "cpu").bind String.toInt?,
+      let ovTok := kvStr args "over"
+      let dflt := ovTok = "d"
+      match (kv? args "k").bind String.toNat?, (if dflt then some 0 else ovTok.toNat?), (kv? args "cpu").bind String.toInt?,
             (kv? args "p").bind String.toNat? with
       | some key, some ov, some cpu, some pid =>
-        let over := ov = 1
         let implShed := l.obs.head? = some "overloaded"
         let implOk := l.obs.head? = some "ok"
+        let inst := match st.insts.find? (·.key = key) with
+          | some i => i
+          | none => mkInst st.enabled opts key st.now
+        let created := (st.insts.find? (·.key = key)).isNone
+        -- the default checker: `stat.CpuUsage() >= cpuThreshold` on the injected reading
+        let over := if dflt then defaultChecker cpu inst.sh.cpuThreshold else ov = 1
+        if dflt then r := r.addCover (if over then (if cpu = inst.sh.cpuThreshold then "default-checker-at-threshold" else "default-checker-over") else
+                                      (if cpu + 1 = inst.sh.cpuThreshold then "default-checker-just-below" else "default-checker-calm"))
         if !implShed && !implOk then
           r := r.mismatch s.idx l.idx "ok|overloaded" (joinSp l.obs)
-        else if disabled then
+        else if inst.nop then
           -- nopShedder: always admits, its promise does nothing
-          r := r.addCover "allow-disabled"
+          r := r.addCover (if disabled then "allow-disabled" else if created then "group-create-after-disable" else "allow-nop-after-disable")
+          if created then st := { st with insts := setInst st.insts inst }
           if implOk then st := { st with proms := st.proms ++ [{ id := pid, key := key, start := st.now }] }
           if implShed then r := r.violation s.idx l.idx "a disabled shedder shed a request"
           if joinSp l.obs ≠ allowLine nopAllow then
             r := r.mismatch s.idx l.idx (allowLine nopAllow) (joinSp l.obs)
         else
-          let inst := match st.insts.find? (·.key = key) with
-            | some i => i
-            | none => mkInst window buckets threshold key st.now
-          if (st.insts.find? (·.key = key)).isNone then r := r.addCover "group-create"
+          if created then r := r.addCover "group-create"
+          if !st.enabled then r := r.addCover "adaptive-shedder-outlives-disable"
           let sh := inst.sh
           -- monitor: the property on the implementation's verdict, from the history alone
           let v : Verdict := if implShed then .overloaded else .admitted
@@ -140,7 +183,9 @@ def runSection (r : Report) (s : Section) : Report := Id.run do
           let lim := sg.limit st.now cpu
           let cpuok := kvNat l.obs "cpuok" 1 = 1
           let gate := sh.gate st.now over
-          let boundary := gate && (!cpuok || Spec.near sg.avgFlying lim || Spec.near (sg.flying : Rat) lim)
+          -- default checker: a sampler store between the harness' injection and the checker's read makes the verdict unknown
+          if dflt && !cpuok then r := r.addCover "cpu-sampler-race-default-checker"
+          let boundary := (gate || (dflt && !cpuok)) && (!cpuok || Spec.near sg.avgFlying lim || Spec.near (sg.flying : Rat) lim)
           let mdrop := sh.shouldDrop st.now over cpu
           let drop := if nan then false else if boundary then implShed else mdrop
           if boundary then r := r.addCover (if cpuok then "boundary-decision" else "cpu-sampler-race")
@@ -175,7 +220,9 @@ def runSection (r : Report) (s : Section) : Report := Id.run do
                 (joinSp l.obs)
             -- conservation (monitor): the implementation's flying counter is admitted − resolved
             let h' := inst.h.observe (.allow over v)
-            if !inst.dirty && kvInt l.obs "flying" (-999) ≠ h'.inFlight then
+            if (kv? l.obs "flying").isNone then
+              r := r.mismatch s.idx l.idx "the white-box fields of an adaptive shedder" (joinSp l.obs ++ " (NewAdaptiveShedder returned something else although load shedding is enabled)")
+            else if !inst.dirty && kvInt l.obs "flying" (-999) ≠ h'.inFlight then
               r := r.violation s.idx l.idx s!"in-flight counter {kvInt l.obs "flying" (-999)} but admitted-resolved = {h'.inFlight}"
           let h' := inst.h.observe (.allow over v)
           st := { st with insts := setInst st.insts { inst with sh := sh', h := h' } }
@@ -189,13 +236,13 @@ def runSection (r : Report) (s : Section) : Report := Id.run do
         r := r.addCover "resolve-not-admitted"
         if joinSp l.obs ≠ "nopromise" then r := r.mismatch s.idx l.idx "nopromise" (joinSp l.obs)
       | some pr =>
-        if disabled then
-          r := r.addCover "resolve-disabled"
-          if joinSp l.obs ≠ "nop" then r := r.mismatch s.idx l.idx "nop" (joinSp l.obs)
-        else
         match st.insts.find? (·.key = pr.key) with
         | none => r := r.mismatch s.idx l.idx "unknown-shedder" (joinSp l.op)
         | some inst =>
+          if inst.nop then
+            r := r.addCover "resolve-disabled"
+            if joinSp l.obs ≠ "nop" then r := r.mismatch s.idx l.idx "nop" (joinSp l.obs)
+          else
           let isPass := kind = "pass"
           let sh' := if isPass then inst.sh.pass st.now pr.start else inst.sh.fail
           let h' := inst.h.observe (if isPass then .pass pr.start else .fail)
@@ -209,7 +256,7 @@ def runSection (r : Report) (s : Section) : Report := Id.run do
           let okAvg := ((kv? l.obs "avg").bind parseRat).map (Spec.near sh'.avgFlying) = some true
           if !(okFly && okAvg) then
             r := r.mismatch s.idx l.idx s!"flying={sh'.flying} avg={showRat sh'.avgFlying}" (joinSp l.obs)
-          if !dirty then
+          if !dirty && (kv? l.obs "flying").isSome then
             if kvInt l.obs "flying" (-999) ≠ h'.inFlight then
               r := r.violation s.idx l.idx s!"in-flight counter {kvInt l.obs "flying" (-999)} but admitted-resolved = {h'.inFlight}"
             if ((kv? l.obs "avg").bind parseRat).map (Spec.near h'.avg) ≠ some true then
